@@ -56,8 +56,27 @@ RMW_A64 = """// OSACA-BEGIN
 """
 
 
+LINES_X86 = "".join("\t%s\n" % l for l in (
+    "vmovapd (%rsi), %ymm0", "vaddpd %ymm0, %ymm1, %ymm1", "addq $32, %rsi", "vmulpd %ymm1, %ymm2, %ymm3",
+    "vmovapd %ymm3, (%rdi)", "addq $1, %rax", "imulq %rax, %rbx", "addq %rbx, %rcx", "subq $1, %rdx", "vaddpd %ymm3, %ymm4, %ymm4"))
+
+
+def _long_a64(variant):
+    """>= 50 lines (multi-process LCD search): one-instruction cycles plus a chain that differs per variant"""
+    body = ["\tadd x%d, x%d, #1" % (i, i) for i in range(1, 27)] + ["\tfadd d%d, d%d, d%d" % (i, i, i) for i in range(0, 28)]
+    if variant == "a":
+        body += ["\tfmul d28, d29, d28", "\tfadd d29, d28, d29"]
+    else:
+        body = body[3:] + ["\tfmul d30, d28, d30", "\tfadd d28, d30, d29", "\tfadd d29, d28, d29", "\tadd x27, x27, x26",
+                           "\tadd x28, x27, #1", "\tadd x26, x28, #2"]
+    return "\n".join(body) + "\n"
+
+
+TREE_KINDS = 8      # kinds 1..8 are enumerated exhaustively (fork tree); 9.. occur in the linear histories
+
+
 def requests(kdir):
-    """The 8 request kinds, in the order of Session!ReqTable."""
+    """The request kinds, in the order of Session!ReqTable."""
     ex = lambda *p: os.path.join(env.REPO, *p)  # noqa
     return [
         ("zen1-triad", ["--arch", "zen1", ex("examples", "triad", "triad.s.zen.gcc.s")]),
@@ -68,7 +87,21 @@ def requests(kdir):
         ("zen4-flagdeps", ["--arch", "zen4", "--consider-flag-deps", ex("tests", "test_files", "kernel_x86.s")]),
         ("zen1-unknown", ["--arch", "zen1", ex("examples", "triad", "triad.s.csx.icc.s")]),
         ("zen1-rmw", ["--arch", "zen1", os.path.join(kdir, "rmw_x86.s")]),
+        # other entry points and option paths of osaca.osaca.run (linear histories only)
+        ("zen1-dbcheck", ["--arch", "zen1", "--db-check", ex("tests", "test_files", "kernel_x86.s")]),
+        ("zen1-import", ["--arch", "zen1", "--import", "ibench", ex("tests", "test_files", "ibench_import_x86.dat")]),
+        ("zen1-lines-a", ["--arch", "zen1", "--lines", "1-3", os.path.join(kdir, "lines_x86.s")]),
+        ("zen1-lines-b", ["--arch", "zen1", "--lines", "6-9", os.path.join(kdir, "lines_x86.s")]),
+        ("tx2-long-a", ["--arch", "tx2", os.path.join(kdir, "long_a.s")]),
+        ("tx2-long-b", ["--arch", "tx2", os.path.join(kdir, "long_b.s")]),
     ]
+
+
+def write_kernels(kdir):
+    for name, text in (("rmw_x86.s", RMW_X86), ("rmw_a64.s", RMW_A64), ("lines_x86.s", LINES_X86),
+                       ("long_a.s", _long_a64("a")), ("long_b.s", _long_a64("b"))):
+        with open(os.path.join(kdir, name), "w") as f:
+            f.write(text)
 
 
 def normalise(report):
@@ -119,7 +152,7 @@ def tree_child():
             json.dump(rec, f)
         if len(hist) >= maxlen:
             return
-        nxt = cfg.get("next") or list(range(1, len(reqs) + 1))
+        nxt = cfg.get("next") or list(range(1, TREE_KINDS + 1))
         parallel = len(hist) + 1 < maxlen  # inner levels fork in parallel, leaves one after another
         pids = []
         for r2 in nxt:
@@ -231,10 +264,7 @@ def _main(run, tier, seed):
     env.warm_models(["zen1", "zen4", "n1", "tx2"], home)
     kdir = os.path.join(WORKROOT, "kernels")
     os.makedirs(kdir)
-    with open(os.path.join(kdir, "rmw_x86.s"), "w") as f:
-        f.write(RMW_X86)
-    with open(os.path.join(kdir, "rmw_a64.s"), "w") as f:
-        f.write(RMW_A64)
+    write_kernels(kdir)
     reqs = requests(kdir)
     argvs = [r[1] for r in reqs]
 
@@ -249,6 +279,11 @@ def _main(run, tier, seed):
     run.add_mc(r3, "MC_Session_reused")
     if "ReportIsFunctionOfRequest" not in r3.violated:
         raise tlc.TLCError("MC_Session_reused: expected the history-dependence counterexample")
+    for cfg, expect in (("MC_Session_today14", None), ("MC_Session_reused14", "ReportIsFunctionOfRequest")):
+        rr = tlc.run_tlc("MC_Session", cfg, workers=1, timeout=300, allow_violation=bool(expect))
+        run.add_mc(rr, cfg)
+        if expect and expect not in rr.violated:
+            raise tlc.TLCError("%s: expected a history-dependence counterexample over the 14 request kinds" % cfg)
     r4 = tlc.run_tlc("MC_Session", "MC_Session_aged", workers=1, timeout=300, coverage=True)
     run.add_mc(r4, "MC_Session_aged")
     r5 = tlc.run_tlc("MC_Session", "MC_Session_procclock", workers=1, timeout=300, allow_violation=True)
@@ -327,7 +362,7 @@ def _main(run, tier, seed):
     lin = []
     for k in range(nlin):
         n = rnd.randint(4, maxl)
-        h = [rnd.randint(1, 8) for _ in range(n)]
+        h = [rnd.randint(1, len(reqs)) for _ in range(n)]
         if k % 3 == 0:
             # bias: repetitions of requests that share a model
             pool = rnd.choice([[1, 5, 7, 8], [2, 6], [3, 4], [8, 8, 1], [3, 3, 4]])
@@ -336,7 +371,12 @@ def _main(run, tier, seed):
     # aged processes: Work (more CPU and wall time than the search limit) before and between analyses
     aged = [[0, 1, 3, 8, 4], [0, 6, 2, 5, 7]] if quick else [[0] + rnd.sample(range(1, 9), 8) for _ in range(6)] + [[1, 0, 1], [3, 0, 4, 3]]
     lin += aged
-    single = [[r] for r in range(1, 9)]  # single-call processes: reference fingerprints
+    # other entry points (database check, benchmark import), --lines selections and kernels that take the
+    # multi-process LCD search, before and after one another and mixed with plain analyses
+    lin += [[10, 9], [9, 10, 9, 1], [11, 12, 11], [12, 11, 7], [13, 14, 13], [14, 13, 4], [10, 5, 9, 8]]
+    if not quick:
+        lin += [[rnd.choice([9, 10, 11, 12, 13, 14]) for _ in range(rnd.randint(3, 7))] for _ in range(24)]
+    single = [[r] for r in range(1, len(reqs) + 1)]  # single-call processes: reference fingerprints
 
     def run_lin(h):
         p = _spawn("linear_child", {"requests": argvs, "refsha": refsha, "history": h}, home)
@@ -347,7 +387,7 @@ def _main(run, tier, seed):
     with concurrent.futures.ThreadPoolExecutor(max_workers=12) as ex:
         lres = list(ex.map(run_lin, single + lin))
     fpref = {}
-    for h, evs in zip(single, lres[:8]):
+    for h, evs in zip(single, lres[:len(single)]):
         fpref[h[0]] = evs[0]["after"]
     for i, (h, evs) in enumerate(zip(single + lin, lres)):
         ev = []
@@ -370,7 +410,7 @@ def _main(run, tier, seed):
 
     # self-test of the binding: a report id that is not the reference, and an unknown request kind
     st = [{"id": "selftest-corrupt", "events": [dict(e) for e in cases[-1]["events"]]},
-          {"id": "selftest-unknown", "events": [{"req": 9, "rep": 0, "ch": []}]}]
+          {"id": "selftest-unknown", "events": [{"req": 99, "rep": 0, "ch": []}]}]
     st[0]["events"][-1]["rep"] = 7
     rejects, rv = tlc.batch_validate("Trace_Session", "Trace_Session", cases + st, tag="c18")
     run.add_mc(rv, "Trace_Session")
@@ -418,7 +458,7 @@ def _main(run, tier, seed):
     run.sample({"history": [rname(reqs, x) for x in lin[0]], "kind": "linear"})
     run.note("requests", [{"name": n, "argv": a} for n, a in reqs])
     run.note("tree_histories", len(hists))
-    run.note("linear_histories", len(lin) + 8)
+    run.note("linear_histories", len(lin) + len(single))
     run.note("analyses_in_tree", len(nodes))
     run.exhaustive = False
     run.assume("a forked child continues the interpreter state of its parent, so the history tree is replayed with "
@@ -436,8 +476,9 @@ def rname(reqs, x):
 
 def _shares(h):
     h = [x for x in h if x]
-    arch = {1: "zen1", 2: "zen4", 3: "n1", 4: "tx2", 5: "zen1", 6: "zen4", 7: "zen1", 8: "zen1"}
-    isa = {1: "x", 2: "x", 3: "a", 4: "a", 5: "x", 6: "x", 7: "x", 8: "x"}
+    arch = {1: "zen1", 2: "zen4", 3: "n1", 4: "tx2", 5: "zen1", 6: "zen4", 7: "zen1", 8: "zen1",
+            9: "zen1", 10: "zen1", 11: "zen1", 12: "zen1", 13: "tx2", 14: "tx2"}
+    isa = {1: "x", 2: "x", 3: "a", 4: "a", 5: "x", 6: "x", 7: "x", 8: "x", 9: "x", 10: "x", 11: "x", 12: "x", 13: "a", 14: "a"}
     for i in range(1, len(h)):
         if any(arch[h[j]] == arch[h[i]] or isa[h[j]] == isa[h[i]] for j in range(i)):
             return True
@@ -453,10 +494,7 @@ def replay(path):
     kdir = os.path.join(WORKROOT, "kernels")
     os.makedirs(kdir)
     try:
-        with open(os.path.join(kdir, "rmw_x86.s"), "w") as f:
-            f.write(RMW_X86)
-        with open(os.path.join(kdir, "rmw_a64.s"), "w") as f:
-            f.write(RMW_A64)
+        write_kernels(kdir)
         reqs = requests(kdir)
         argvs = [r[1] for r in reqs]
         home = env.sandbox_home()
